@@ -36,6 +36,16 @@ class PermLoop(asyncio.SelectorEventLoop):
         self.turns = 0
         self.quiesce_fut = None
 
+    def run_in_executor(self, executor, func, *args):
+        Env.INFLIGHT += 1                       # a thread is working: not quiescent
+        fut = super().run_in_executor(executor, func, *args)
+
+        def _done(_f):
+            Env.INFLIGHT -= 1
+
+        fut.add_done_callback(_done)
+        return fut
+
     def _run_once(self):
         self.turns += 1
         if not self._ready and not self._scheduled and Env.INFLIGHT == 0 and self.quiesce_fut is not None:
@@ -64,7 +74,17 @@ class Env:
         from streamflow.workflow.step import (CombinatorStep, ConditionalStep, GatherStep, ScatterStep,
                                               Transformer)
         from streamflow.workflow.token import ListToken, TerminationToken
+        from streamflow.core.config import BindingConfig
+        from streamflow.core.deployment import DeploymentConfig, Target
+        from streamflow.core.workflow import Command, CommandOutput
+        from streamflow.workflow.port import ConnectorPort
+        from streamflow.workflow.step import DeployStep, ExecuteStep, ScheduleStep
 
+        self.BindingConfig, self.DeploymentConfig, self.Target = BindingConfig, DeploymentConfig, Target
+        from streamflow.workflow.port import JobPort
+        self.JobPort = JobPort
+        self.ConnectorPort, self.DeployStep, self.ExecuteStep, self.ScheduleStep = (
+            ConnectorPort, DeployStep, ExecuteStep, ScheduleStep)
         self.Status, self.Token, self.Workflow = Status, Token, Workflow
         self.ListToken, self.TerminationToken = ListToken, TerminationToken
         self.build_context, self.Executor = build_context, StreamFlowExecutor
@@ -134,7 +154,26 @@ class Env:
                         token=Token(value=0, tag=get_tag(inputs.values())), port=port,
                         input_token_ids=get_entity_ids(inputs.values())))
 
-        self.VTransformer, self.VCond = VTransformer, VCond
+        class VCommand(Command):
+            """the command of an "exec" step: value = add + sum(inputs); FAILED on listed tags; other jobs may be
+            held (long jobs) until nothing else can move"""
+
+            def __init__(self, step, add=0, fail=(), yields=0, hold=False):
+                super().__init__(step)
+                self.add, self.fail, self.yields, self.hold = add, tuple(fail), yields, hold
+
+            async def execute(self, job):
+                tag = get_tag(job.inputs.values())
+                for _ in range(self.yields):
+                    await asyncio.sleep(0)
+                if tag in self.fail:
+                    env.raised.append([self.step.name, tag])
+                    return CommandOutput("injected failure", Status.FAILED)
+                if self.hold:
+                    await env.latch.wait()
+                return CommandOutput(self.add + sum(tval(t) for t in job.inputs.values()), Status.COMPLETED)
+
+        self.VTransformer, self.VCond, self.VCommand = VTransformer, VCond, VCommand
         self.latch = None
         self.raised = []
 
@@ -146,7 +185,9 @@ def _canon_val(env, tok):
     v = tok.value
     if isinstance(v, list):
         return [_canon_val(env, x) if isinstance(x, env.Token) else x for x in v]
-    return v
+    if v is None or isinstance(v, (int, str)):
+        return v
+    return "job:" + v.name if hasattr(v, "name") else type(v).__name__
 
 
 async def _build(env, case, ctx):
@@ -173,6 +214,28 @@ async def _build(env, case, ctx):
         elif k == "gather":
             st = wf.create_step(env.GatherStep, name=s["n"], size_port=port(s["ins"]["__size__"]),
                                 depth=s.get("depth", 1))
+        elif k in ("exec", "sched"):
+            # DeployStep (shared) -> ScheduleStep [-> ExecuteStep] on the local deployment
+            if "__deploy__" not in ports:
+                dconf = env.DeploymentConfig(name="__LOCAL__", type="local", config={}, external=True, lazy=False,
+                                             workdir=case["_workdir"])
+                dstep = wf.create_step(env.DeployStep, name="/__deploy__/local", deployment_config=dconf,
+                                       connector_port=wf.create_port(cls=env.ConnectorPort, name="__deploy__"))
+                ports["__deploy__"] = dstep.get_output_port()
+                ports["__dconf__"] = dconf
+            dconf = ports["__dconf__"]
+            sched = wf.create_step(env.ScheduleStep, name=s["n"] + "/__schedule__", job_prefix=s["n"],
+                                   connector_ports={dconf.name: ports["__deploy__"]},
+                                   binding_config=env.BindingConfig(targets=[env.Target(deployment=dconf)]),
+                                   job_port=wf.create_port(cls=env.JobPort, name=s["n"].strip("/") + "__job__"))
+            for n, p in s["ins"].items():
+                sched.add_input_port(n, port(p))
+            ports[s["n"].strip("/") + "__job__"] = sched.get_output_port()
+            if k == "sched":
+                continue
+            st = wf.create_step(env.ExecuteStep, name=s["n"], job_port=sched.get_output_port())
+            st.command = env.VCommand(st, add=s.get("add", 0), fail=s.get("fail", ()), yields=s.get("yields", 0),
+                                      hold=s.get("hold", False))
         elif k in ("dot", "cart"):
             if k == "dot":
                 comb = env.Dot(s["n"] + "-c", wf)
@@ -224,6 +287,12 @@ async def _main(env, case, loop, want_db):
     ctx = env.build_context({"database": {"type": "default", "config": {"connection": ":memory:"}},
                              "path": os.getcwd()})
     obs = {}
+    workdir = None
+    if any(s["k"] in ("exec", "sched") for s in case["steps"]):
+        import tempfile
+
+        workdir = tempfile.mkdtemp(prefix="sfv-net-wd-", dir="/var/tmp")
+        case = {**case, "_workdir": workdir}
     try:
         env.latch = asyncio.Event()
         env.raised = []
@@ -349,6 +418,14 @@ async def _main(env, case, loop, want_db):
             if t is not asyncio.current_task() and not t.done():
                 t.cancel()
         await asyncio.sleep(0)
+        if workdir is not None:
+            import shutil
+
+            try:
+                await ctx.deployment_manager.undeploy_all()
+            except Exception:  # noqa
+                pass
+            shutil.rmtree(workdir, ignore_errors=True)
         await ctx.close()
     return obs
 
@@ -477,6 +554,34 @@ def gen_sg_net(rng, fail_p=0.3):
     case = {"f": "net", "steps": steps, "inputs": inputs, "sched": rng.randrange(1 << 30)}
     if ftags and rng.random() < fail_p:
         next(s for s in steps if s["n"] == "/t")["fail"] = [rng.choice(ftags)]
+    return fix_outputs(case)
+
+
+def gen_exec_net(rng, fail_p=0.6):
+    """the schedule/execute family on the local deployment (real DeployStep, ScheduleStep, ExecuteStep):
+       A: scatter -> Execute running one job per element concurrently -> gather
+       B: two injected ports carrying the same tags in independently shuffled orders -> one Schedule/Execute pair"""
+    n = rng.choice([2, 3, 3, 4, 6])
+    tags = [f"0.{i}" for i in range(n)]
+    if rng.random() < 0.5:
+        steps = [{"n": "/sa", "k": "scatter", "ins": {"x": "i0"}, "outs": {"o": "ea", "__size__": "sza"}}]
+        inputs = {"i0": [["0", [rng.randrange(0, 30) for _ in range(n)]]]}
+        ex = {"n": "/w", "k": "exec", "ins": {"a": "ea"}, "outs": {"o": "r"}}
+        steps.append(ex)
+        steps.append({"n": "/g", "k": "gather", "ins": {"x": "r", "__size__": "sza"}, "outs": {"o": "l"}})
+    else:
+        ta, tb = list(tags), list(tags)
+        rng.shuffle(ta)
+        rng.shuffle(tb)
+        inputs = {"i0": [[t, rng.randrange(0, 30)] for t in ta], "i1": [[t, rng.randrange(0, 30)] for t in tb]}
+        ex = {"n": "/w", "k": "exec", "ins": {"a": "i0", "b": "i1"}, "outs": {"o": "r"}}
+        steps = [ex, {"n": "/u", "k": "xf", "ins": {"x": "r"}, "outs": {"o": "q"}, "add": 1}]
+    ex["add"] = rng.randrange(0, 5)
+    ex["yields"] = rng.choice([0, 1, 2, 5])
+    case = {"f": "net", "steps": steps, "inputs": inputs, "sched": rng.randrange(1 << 30)}
+    if rng.random() < fail_p:
+        ex["fail"] = [rng.choice(tags)]
+        ex["hold"] = rng.random() < 0.7       # the siblings of the failing job are still running when it fails
     return fix_outputs(case)
 
 
